@@ -54,10 +54,15 @@ def rev_ent():
 
 
 REWRITES = ["hex", "dec", "named", "prefix-m", "prefix-mml", "defaultns", "ws", "ws-crlf", "comment", "pi", "xmldecl", "mjx2", "mjx3", "squote",
-            "tokws-lf", "tokws-crlf", "tokws-crref", "tokws-tab", "tokws-inner-crlf"]
+            "tokws-lf", "tokws-crlf", "tokws-crref", "tokws-tab", "tokws-inner-crlf", "tokws-inner-ref", "tokws-inner-named", "tok-inner-comment", "tok-inner-pi",
+            "tok-inner-cdata"]
 # pairs that cannot be combined (two answers to the same surface question)
 EXCLUSIVE = [{"hex", "dec", "named"}, {"prefix-m", "prefix-mml", "defaultns"}, {"mjx2", "mjx3"}, {"ws", "ws-crlf"},
-             {"tokws-lf", "tokws-crlf", "tokws-crref", "tokws-tab"}]
+             {"tokws-lf", "tokws-crlf", "tokws-crref", "tokws-tab"},
+             {"tokws-inner-crlf", "tokws-inner-ref", "tokws-inner-named", "tok-inner-comment", "tok-inner-pi", "tok-inner-cdata"}]
+# a blank INSIDE token text written so that the XML parser splits the text into several nodes (character reference, comment, processing
+# instruction, CDATA section) or not (named entity, substituted before parsing): the run of white space is one blank either way
+INNER = {"tokws-inner-ref": " &#x9; ", "tokws-inner-named": " &Tab; ", "tok-inner-comment": " <!-- c --> ", "tok-inner-pi": " <?p q?> ", "tok-inner-cdata": " <![CDATA[ ]]> "}
 # XML white space around (and, where the text already has a blank, inside) the text of a token: every spelling of it is trimmed / collapsed alike
 TOKWS = {"tokws-lf": ("\n   ", "\n  "), "tokws-crlf": ("\r\n   ", "\r\n  "), "tokws-crref": ("&#xD;&#xA; ", "&#13;&#10;"), "tokws-tab": ("\t ", " \t")}
 
@@ -112,6 +117,14 @@ def surface(t, opts, depth=0, root=True):
         body = enc_text(t.text, opts)
         if "tokws-inner-crlf" in opts and " " in t.text.strip():
             body = body.replace(" ", "\r\n ", 1)                 # a blank inside the text spelled as CR LF blank
+        for k, spelled in INNER.items():
+            if k in opts and " " in t.text.strip():
+                lead = len(body) - len(body.lstrip(" "))
+                i = body.find(" ", lead + 1) if lead or not body.startswith(" ") else -1
+                i = body.strip(" ").find(" ")
+                if i > 0:
+                    core = body.strip(" ")
+                    body = core[:i] + spelled + core[i + 1:]
         for k, (lead, trail) in TOKWS.items():
             if k in opts and t.text.strip():
                 body = lead + body + trail
